@@ -26,10 +26,12 @@ def _const_key(e):
 
 
 class _Interp(object):
-    def __init__(self, name, nested):
+    def __init__(self, name, nested, keys_of_call=None):
         self.d = name
         self.nested = nested
         self.found = []
+        # optional summary: the constant keys of the dict a call returns (set) or None when unknown
+        self.keys_of_call = keys_of_call or (lambda call: None)
 
     def is_d(self, e):
         return isinstance(e, ast.Name) and e.id == self.d
@@ -79,6 +81,8 @@ class _Interp(object):
                             added.update(k.arg for k in n.keywords if k.arg)
                         elif lit is None and all(k.arg for k in n.keywords):
                             added.update(k.arg for k in n.keywords)
+                        elif isinstance(lit, ast.Call) and self.keys_of_call(lit) is not None:
+                            added.update(self.keys_of_call(lit))
                         else:
                             clear = True
                     elif f.attr in ("clear", "popitem", "__setitem__", "__delitem__"):
@@ -173,10 +177,10 @@ class _Interp(object):
         return self.effects(s, absent)
 
 
-def stale_reads(fn_node, name):
+def stale_reads(fn_node, name, keys_of_call=None):
     """[(node, key)] reads of keys of local dict `name` that are certainly absent where they are read"""
     nested = {n.name for n in ast.walk(fn_node) if isinstance(n, (ast.FunctionDef, ast.AsyncFunctionDef)) and n is not fn_node}
-    it = _Interp(name, nested)
+    it = _Interp(name, nested, keys_of_call)
     body = [s for s in fn_node.body if not (isinstance(s, ast.Expr) and isinstance(s.value, ast.Constant))]
     it.block(body, set())
     # de-duplicate (a read inside a Compare is also found as the inner call)
@@ -234,9 +238,28 @@ def stale_rule(ctx, rule, funcs, what):
                 names.add(x.value.id)
             if isinstance(x, ast.Call) and isinstance(x.func, ast.Attribute) and x.func.attr in ("pop", "get") and isinstance(x.func.value, ast.Name) and x.args and isinstance(x.args[0], ast.Constant) and isinstance(x.args[0].value, str):
                 names.add(x.func.value.id)
+        def keys_of_call(call, _f=f):
+            """constant keys of the dict literal(s) a package function returns, when that is all it returns"""
+            h = ctx.index.funcs.get(ctx.index.callee(_f.mod, call, _f) or "")
+            if h is None:
+                return None
+            keys = set()
+            rets = [r for r in iter_own(h.node) if isinstance(r, ast.Return)]
+            if not rets:
+                return None
+            for r in rets:
+                v = r.value
+                if isinstance(v, ast.Dict) and None not in v.keys and all(isinstance(k, ast.Constant) and isinstance(k.value, str) for k in v.keys):
+                    keys.update(k.value for k in v.keys)
+                elif isinstance(v, ast.Call) and isinstance(v.func, ast.Name) and v.func.id == "dict" and not v.args and all(k.arg for k in v.keywords):
+                    keys.update(k.arg for k in v.keywords)
+                else:
+                    return None
+            return keys
+
         for nm in sorted(names):
             n += 1
-            found = stale_reads(f.node, nm)
+            found = stale_reads(f.node, nm, keys_of_call)
             if not found:
                 ctx.ob(rule, f, "no read of a translated-away key of `{}`".format(nm), True, line=f.node.lineno)
             for node, k in found:
